@@ -89,8 +89,12 @@ def c13_step(tier, seed, rundir, log):
             distinct_inputs.add((f, mode))
             if len(outs) > 1:
                 vs = list(outs.values())
+                extra = ""
+                if b"panicked at" in vs[0][2]:
+                    # a crash report carries the OS thread id; say which crash it is (recorded finding or new)
+                    extra = " in-process: " + inprocess_detail(f, d)
                 hits.append({"property": "C13", "kind": "output-differs-between-launches", "input": open(f, errors="replace").read(),
-                             "detail": f"gram {mode}: {len(outs)} distinct outputs in {launches} launches; e.g. stderr A: {vs[0][2][:300]!r} stderr B: {vs[1][2][:300]!r}",
+                             "detail": f"gram {mode}: {len(outs)} distinct outputs in {launches} launches; e.g. stderr A: {vs[0][2][:300]!r} stderr B: {vs[1][2][:300]!r}{extra}",
                              "suite": "cli"})
             elif len(samples) < 4:
                 r = next(iter(outs.values()))
@@ -249,7 +253,39 @@ def c17_step(tier, seed, rundir, log):
             hits.append({"property": parts[0], "kind": parts[1], "input": parts[2], "detail": parts[3], "suite": "scaling"})
     samples, n_meas = [], 0
     import math
+
+    def suspicious(ts):
+        ns = sorted(ts)
+        for a, b in zip(ns, ns[1:]):
+            ta, tb = ts[a] / 1e6, ts[b] / 1e6
+            if (tb > 0.25 and ta > 0 and math.log(tb / ta) / math.log(b / a) > 4.5) or tb > 30:
+                return True
+        return False
+
+    def remeasure(fam, ts):
+        # timing is noisy on a loaded machine: before growth is reported the family is measured twice more
+        # and the minimum per size is kept
+        for k in range(2):
+            d2 = os.path.join(d, f"again{k}")
+            os.makedirs(d2, exist_ok=True)
+            try:
+                subprocess.run([harness, "scaling", tier, str(seed), d2], stdout=subprocess.PIPE, stderr=subprocess.STDOUT, timeout=limit,
+                               env=dict(os.environ, VERIF_SCALING_ONLY=fam))
+                for line in open(os.path.join(d2, "scaling.stats"), errors="replace"):
+                    k2, _, v = line.rstrip("\n").partition("\t")
+                    m = re.match(r"stat:scale:([\w-]+):(\d+)$", k2)
+                    if m and m.group(1) == fam:
+                        n = int(m.group(2))
+                        ts[n] = min(ts.get(n, int(v)), int(v))
+            except (subprocess.TimeoutExpired, OSError):
+                return ts
+        return ts
+
+    remeasured = []
     for fam, ts in sorted(times.items()):
+        if suspicious(ts):
+            ts = times[fam] = remeasure(fam, ts)
+            remeasured.append(fam)
         ns = sorted(ts)
         n_meas += len(ns)
         worst = 0.0
@@ -264,5 +300,6 @@ def c17_step(tier, seed, rundir, log):
             if tb > 30:
                 hits.append({"property": "C17", "kind": "too-slow", "input": f"family:{fam} n={b}", "detail": f"{tb:.1f}s", "suite": "scaling"})
         samples.append(f"{fam}: " + ", ".join(f"n={n}: {ts[n] / 1e6:.3f}s ({tokens.get(fam, {}).get(n, '?')} tokens, {misses.get(fam, {}).get(n, '?')} cache misses)" for n in ns))
-    cov.update({"evaluations": n_meas, "distinct_nontrivial": n_meas, "samples": samples[:16], "scaling_wall_s": round(time.time() - t0, 1)})
+    cov.update({"evaluations": n_meas, "distinct_nontrivial": n_meas, "samples": samples[:16], "scaling_wall_s": round(time.time() - t0, 1),
+                "scaling_families_measured_three_times": remeasured})
     return hits, cov
